@@ -3,12 +3,12 @@ CONSTANTS
   Vals <- Gen_Vals
   ValSeq <- Gen_ValSeq
   Fresh = TRUE
-  SortKinds <- Gen_SortKinds
+  SortKinds <- GenX_SortKinds
   Seps <- MC_Seps
-  XKeys <- MC_NoXKeys
+  XKeys <- MC_XKeys
   XVals <- MC_XVals
-  MaxEx = 0
-  FillNs <- MC_NoXKeys
+  MaxEx = 2
+  FillNs <- MC_Fills
   Gen = "all"
 ACTION_CONSTRAINT GenPrint
 CHECK_DEADLOCK FALSE
